@@ -37,6 +37,8 @@ import CoreDhcp.Props.GenConfig
 import CoreDhcp.Props.GenPrefix6
 import CoreDhcp.Props.GenHandlers6
 import CoreDhcp.Props.GenSetups
+import CoreDhcp.Props.GenStart
+import CoreDhcp.Props.GenStorage
 open CoreDhcp
 #print axioms C20_offset_exact
 #print axioms C20_offset_symm
@@ -338,3 +340,34 @@ open CoreDhcp
 #print axioms GEN_setup_autoconfigure4_keeps
 #print axioms GEN_setup_nbp4_keeps66
 #print axioms GEN_setup_nbp6_keeps60
+#print axioms SYS_file_address4_lease
+#print axioms SYS_C14_stamped4
+#print axioms SYS_C14_stamped6
+#print axioms SYS_C02_lease4
+#print axioms SYS_C02_addr4
+#print axioms GEN_start_listen4_eq
+#print axioms GEN_start_listen6_eq
+#print axioms GEN_start_closeLoop_acc
+#print axioms GEN_start_close_eq
+#print axioms GEN_start_loop6_acc
+#print axioms GEN_start_loop4_acc
+#print axioms GEN_start_start_eq
+#print axioms START_every_section_listens
+#print axioms START_whole_chain
+#print axioms START_unbound_has_pktinfo
+#print axioms START_cleanup
+#print axioms START_failed_listen_leaks_socket
+#print axioms START_load_error_opens_nothing
+#print axioms GEN_storage_parseHWAddr_eq
+#print axioms GEN_storage_parseHWAddr_nopanic
+#print axioms GEN_storage_parseUint_probes
+#print axioms GEN_storage_split_probes
+#print axioms GEN_storage_loadRecords_spec
+#print axioms GEN_storage_loadRecords_eq
+#print axioms GEN_storage_loadRecords_concrete
+#print axioms GEN_storage_query_cols
+#print axioms GEN_storage_save_eq
+#print axioms GEN_storage_schema
+#print axioms GEN_storage_loadDB_eq
+#print axioms GEN_storage_register_eq
+#print axioms GEN_storage_key_roundtrip
